@@ -34,7 +34,7 @@ def cases(tier, rng):
         a = mdsha.ALGS[alg]
         B = a['block']; bs = B * 8; w = a['w']
         spill = bs - 1 - 2 * w
-        pats = ['rand'] if tier == 'quick' else ['rand', 'ones', 'zero', 'x80']
+        pats = ['rand', 'ones', 'xwords'] if tier == 'quick' else ['rand', 'ones', 'zero', 'x80', 'xwords', 'x7f']
         for pat in pats:
             for n in range(0, int(2.5 * B) + 1):
                 yield {'k': 'bytes', 'alg': alg, 'n': n, 'pat': pat}
@@ -59,7 +59,7 @@ def cases(tier, rng):
         for over in (1, 7, 8, 9, bs):
             for n in (0, 1, B - 1, B, B + 1):
                 yield {'k': 'reject', 'alg': alg, 'n': n, 'over': over}
-        for shape in ('pending', 'pending-partial', 'finalised', 'refused-final', 'bytearray-arg'):
+        for shape in ('pending', 'pending-partial', 'finalised', 'refused-final', 'bytearray-arg', 'fresh-update'):
             for n in (0, 3, B - 1, B, B + 9):
                 yield {'k': 'after-stream', 'alg': alg, 'shape': shape, 'n': n}
         # multi-word bit counters
@@ -123,6 +123,12 @@ def run(case, ctx, rng):
         shape, n = case['shape'], case['n']
         ctx.cls((alg, 'after-stream', shape, n % B, n // B))
         m = rng.randbytes(n)
+        if shape == 'fresh-update':
+            # a brand-new object used through update() at once (no one-shot call, no explicit initstate before)
+            hf = make(alg)
+            ctx.eq('digest==reference', call(lambda: hf.update(m, padding=True)), mdsha.digest(alg, m), alg=alg, n=n, m=m, shape='update(M, padding=True) on a fresh object')
+            hg = make(alg); blk = rng.randbytes(B)
+            ctx.eq('digest==reference', call(lambda: (hg.update(blk), hg.update(m, padding=True))[1]), mdsha.digest(alg, blk + m), alg=alg, n=n, shape='update(block); update(M, padding=True) on a fresh object')
         def prep():
             h.initstate()
             if shape == 'pending': h.update(rng.randbytes(B))
